@@ -114,12 +114,15 @@ var lsets = []model.LabelSet{
 	// regexes treat these differently from any prefix / suffix / substring shortcut
 	{"a": "x1\n"},
 	{"a": "1\n2", "b": "\tx1\r"},
+	// a value that starts with an operator character: a="~x1" and a=~"x1" read the same when name, operator and value
+	// are simply concatenated ("a=~x1"), and mean different things
+	{"a": "~x1", "b": "=2"},
 }
 
 var (
 	names    = []string{"a", "b", "ü"}
-	values   = []string{"", "1", "2", "x1", "x1\n", "1\n2", "\tx1\r"}
-	rePats   = []string{"1|2", "x.+", ".*", "[12]?", ".+", "x.*", ".*1", ".*x1.*", "x1", ".*2", "1", "2", ""} // incl. the equality values, for operator-only edits
+	values   = []string{"", "1", "2", "x1", "x1\n", "1\n2", "\tx1\r", "~x1", "=2", "~1|2"}
+	rePats   = []string{"1|2", "x.+", ".*", "[12]?", ".+", "x.*", ".*1", ".*x1.*", "x1", ".*2", "1", "2", "", "~x1", "~1|2", "=2", "~x.*"} // incl. the equality values, for operator-only edits
 	badPat   = "("
 	setPool  = [][][]Mat{
 		{{{0, "a", "1"}}},
@@ -139,6 +142,14 @@ var (
 		{{{1, "a", "x1"}}},
 		{{{3, "b", ".+"}, {1, "a", ".*2"}}},
 		{{{3, "a", ".*x1.*"}, {2, "a", ""}}},
+		// pairs whose name+operator+value texts collide across different (operator, value) splits
+		{{{0, "a", "~x1"}}},                    // a="~x1"   vs  a=~"x1"   (above)
+		{{{0, "a", "~1|2"}}},                   // a="~1|2"  vs  a=~"1|2"  (above)
+		{{{0, "a", "~x.*"}}},                   // a="~x.*"  vs  a!~/=~"x.*"
+		{{{1, "a", "x.*"}}},
+		{{{2, "b", "~x1"}, {0, "a", "~x1"}}},   // b!="~x1"
+		{{{3, "b", "x1"}, {1, "a", "x1"}}},     // b!~"x1"
+		{{{0, "b", "=2"}}},                     // b="=2" ("b==2")
 	}
 	peerIDs = []string{"p1", "p2", "p3"}
 	allIDs  = []string{"p1", "p2", "p3", "pbad", "q1", "q2", "q3", "q4"}
